@@ -761,8 +761,8 @@ def _opt(draw, f, name, strat, p_absent=0.15):
 
 
 @st.composite
-def action(draw, nicira=False):
-  kinds = list(OF10_ACTION_KINDS)
+def action(draw, nicira=False, kinds=None):
+  kinds = list(kinds or OF10_ACTION_KINDS)
   kind = draw(st.sampled_from(kinds))
   f = {}
   if kind == "ofp_action_output":
@@ -813,8 +813,8 @@ def phy_port(draw):
 
 
 @st.composite
-def queue_prop(draw, safe=True):
-  kinds = ["ofp_queue_prop_min_rate"] if safe else ["ofp_queue_prop_min_rate"] * 6 + ["ofp_queue_prop_none",
+def queue_prop(draw, safe=True, kinds=None):
+  kinds = kinds if kinds else ["ofp_queue_prop_min_rate"] if safe else ["ofp_queue_prop_min_rate"] * 6 + ["ofp_queue_prop_none",
                                                                                       "ofp_queue_prop_generic"]
   kind = draw(st.sampled_from(kinds))
   f = {}
@@ -836,9 +836,9 @@ def packet_queue(draw, safe=True):
 
 
 @st.composite
-def stats_request_body(draw, safe=True, generic=False):
-  kinds = [k for k in STATS_REQUEST_KINDS if not (safe and k == "ofp_vendor_stats_generic")
-           and (generic or k != "ofp_generic_stats_body")]
+def stats_request_body(draw, safe=True, generic=False, kinds=None):
+  kinds = kinds or [k for k in STATS_REQUEST_KINDS if not (safe and k == "ofp_vendor_stats_generic")
+                    and (generic or k != "ofp_generic_stats_body")]
   kind = draw(st.sampled_from(kinds))
   f = {}
   if kind == "ofp_generic_stats_body":
@@ -1059,8 +1059,8 @@ def learn_spec(draw):
 
 
 @st.composite
-def nx_action(draw):
-  kind = draw(st.sampled_from(NX_ACTION_KINDS))
+def nx_action(draw, kinds=None):
+  kind = draw(st.sampled_from(kinds or NX_ACTION_KINDS))
   f = {}
   if kind == "nx_action_resubmit":
     f["subtype"] = draw(st.sampled_from([1, 14]))
@@ -1111,8 +1111,8 @@ def nx_action(draw):
 
 
 @st.composite
-def nx_message(draw):
-  kind = draw(st.sampled_from(NX_MESSAGE_KINDS))
+def nx_message(draw, kinds=None):
+  kind = draw(st.sampled_from(kinds or NX_MESSAGE_KINDS))
   f = {"xid": draw(uint(32))}
   if kind in ("nx_role_request", "nx_role_reply"):
     _opt(draw, f, "role", uint(32))
